@@ -53,6 +53,38 @@ Theorem C18_slot_rule : forall off vgs free ws ss,
                   /\ ((total_need vgs <= free)%nat -> rest = [] /\ ss = []).
 Proof. exact plan_groups_spec. Qed.
 
+(* PARTIAL (see the comment in Proofs/HitsoundCopyProofs.v): the guarded guarantees for the sounds of ONE time; their
+   lifting to whole charts is not proved and is checked by [specb] on every generated pair instead.
+   Full statements intended:  wf src tgt = true -> tgt_silent tgt = true -> no_semicolon src = true ->
+   hitsound_copy psrc ptgt src tgt = Some out -> no_invention src out /\ bounded src tgt out, and with
+   no_multi_overflow src tgt = true also named_conserved src out. *)
+Theorem C18_named_conserved_guarded_partial : forall off vgs free ws ss,
+  (forall vg, In vg vgs -> 0 <= fst vg) ->
+  plan_groups off vgs free = (ws, ss) ->
+  ((total_need vgs <= free)%nat \/ (forall vg, In vg vgs -> (length (group_files (snd vg)) <= 1)%nat)) ->
+  Permutation (group_pairs vgs) (wfile_pairs ws ++ sample_pairs ss).
+Proof. exact hs_named_conserved_guarded_partial. Qed.
+
+Theorem C18_no_invention_partial : forall off vgs free ws ss,
+  (forall vg, In vg vgs -> 0 <= fst vg) ->
+  plan_groups off vgs free = (ws, ss) ->
+  (exists rest, Permutation (group_pairs vgs) ((wfile_pairs ws ++ sample_pairs ss) ++ rest))
+  /\ (nb 2 ws <= total_bit 2 vgs)%nat /\ (nb 4 ws <= total_bit 4 vgs)%nat /\ (nb 8 ws <= total_bit 8 vgs)%nat.
+Proof. exact hs_no_invention_partial. Qed.
+
+Theorem C18_bounded_partial : forall off vgs free ws ss,
+  (forall vg, In vg vgs -> 0 <= fst vg) ->
+  plan_groups off vgs free = (ws, ss) ->
+  length ws = Nat.min (total_need vgs) free
+  /\ ((total_need vgs <= free)%nat ->
+      nb 2 ws = total_bit 2 vgs /\ nb 4 ws = total_bit 4 vgs /\ nb 8 ws = total_bit 8 vgs /\ ss = []).
+Proof. exact hs_bounded_partial. Qed.
+
+Theorem C18_slot_rule_loses_refuted :
+  exists off vgs free ws ss, plan_groups off vgs free = (ws, ss)
+    /\ ~ Permutation (group_pairs vgs) (wfile_pairs ws ++ sample_pairs ss).
+Proof. exact hs_slot_rule_loses_refuted. Qed.
+
 (* non-vacuity: a pair inside every guard (hits and holds on both sides, two volumes, a named sample, more than one
    time) on which the model runs and the full specification holds *)
 Definition ex_src : hmap :=
@@ -64,4 +96,7 @@ Definition ex_tgt : hmap :=
 Example C18_nonvacuous :
   wf ex_src ex_tgt = true /\ tgt_silent ex_tgt = true /\ no_semicolon ex_src = true /\ no_multi_overflow ex_src ex_tgt = true
   /\ exists out, hitsound_copy [0;1;2;4;5;3]%nat [0;1;2;4;3;5]%nat ex_src ex_tgt = Some out /\ specb ex_src ex_tgt out = true.
-Proof. repeat (match goal with |- _ /\ _ => split end); try (vm_compute; reflexivity). eexists. split; vm_compute; reflexivity. Qed.
+Proof.
+  split; [vm_compute; reflexivity|]. split; [vm_compute; reflexivity|]. split; [vm_compute; reflexivity|].
+  split; [vm_compute; reflexivity|]. eexists. split; [vm_compute; reflexivity|]. vm_compute. reflexivity.
+Qed.
